@@ -7,12 +7,14 @@ import (
 	"go/scanner"
 	"go/token"
 	"os"
+	"reflect"
 	"regexp"
 	"runtime"
 	"strings"
 	"sync"
 	"testing"
 
+	"github.com/dave/jennifer/jen"
 	"pgregory.net/rapid"
 
 	"verif/internal/corpus"
@@ -124,6 +126,74 @@ func checkList(c listCase) error {
 	return nil
 }
 
+// ---- (a'') the caller's slice: a list construct must not modify the slice it is given ----
+
+type sliceCase struct {
+	First  string `json:"first"`  // construct that receives the slice first
+	Second string `json:"second"` // construct that receives the same slice afterwards
+	Arity  int    `json:"arity"`
+	Mask   uint32 `json:"mask"`  // positions holding a null-like item
+	Kinds  []int  `json:"kinds"` // null kinds
+}
+
+func callSlice(fn string, items []jen.Code) (out string, err error) {
+	defer func() {
+		if p := recover(); p != nil {
+			err = fmt.Errorf("panic: %v", p)
+		}
+	}()
+	f := reflect.ValueOf(recipe.Funcs[fn])
+	var st *jen.Statement
+	if f.Type().NumIn() == 2 { // Custom(options, items...)
+		st = f.CallSlice([]reflect.Value{reflect.ValueOf(jen.Options{Open: "<", Close: ">", Separator: ";"}), reflect.ValueOf(items)})[0].Interface().(*jen.Statement)
+	} else {
+		st = f.CallSlice([]reflect.Value{reflect.ValueOf(items)})[0].Interface().(*jen.Statement)
+	}
+	file := jen.NewFile("p")
+	file.NoFormat = true
+	file.Add(jen.Id("head").Add(st).Id("tail"))
+	buf := &bytes.Buffer{}
+	if err := file.Render(buf); err != nil {
+		return "", err
+	}
+	return buf.String(), nil
+}
+
+func checkSlice(c sliceCase) error {
+	mk := func() []jen.Code {
+		var items []jen.Code
+		k := 0
+		b := &recipe.Builder{}
+		for i := 0; i < c.Arity; i++ {
+			if c.Mask&(1<<uint(i)) != 0 {
+				items = append(items, b.Code(mutate.NullItem(mutate.NullKinds[c.Kinds[k%len(c.Kinds)]%len(mutate.NullKinds)])))
+				k++
+				continue
+			}
+			items = append(items, jen.Id(fmt.Sprintf("a%02d", i)))
+		}
+		return items
+	}
+	shared := mk()
+	got1, err := callSlice(c.First, shared)
+	if err != nil {
+		return fmt.Errorf("%s: %v", c.First, err)
+	}
+	got2, err := callSlice(c.Second, shared) // the same slice again
+	if err != nil {
+		return fmt.Errorf("%s after %s on the same slice: %v", c.Second, c.First, err)
+	}
+	want1, _ := callSlice(c.First, mk())
+	want2, _ := callSlice(c.Second, mk())
+	if got1 != want1 {
+		return fmt.Errorf("%s renders %q, want %q", c.First, got1, want1)
+	}
+	if got2 != want2 {
+		return fmt.Errorf("the slice given to %s was then given to %s, which renders %q; with a fresh slice of the same items it renders %q (the first construct modified its caller's slice)", c.First, c.Second, got2, want2)
+	}
+	return nil
+}
+
 var customOpts = []*recipe.Opts{
 	{Open: "<", Close: ">", Separator: ";"},
 	{Open: "", Close: "", Separator: ","},
@@ -196,7 +266,7 @@ func firstDiff(a, b []byte) string {
 func TestC13(t *testing.T) {
 	r := hx.Start(t, "C13")
 	defer r.Finish(t)
-	r.Rule("(a) enumeration: every list construct (23 incl. Custom with 5 option sets) x arity 0..8 (thorough 0..12) x every subset of positions holding a null-like item (15 kinds: nil, typed nil *Statement / *Group, Null(), empty statement, Add(), List(), Union(), Tag(nil), Tag(map{}), nests of those) x Empty() at one real position; (b) null policy applied to every list construct and the File body of real programs (corpus third / all files); non-trivial = >= 1 injected null in a list with >= 1 real item; distinct by case")
+	r.Rule("(a) enumeration: every list construct (23 incl. Custom with 5 option sets) x arity 0..8 (thorough 0..12) x every subset of positions holding a null-like item (20 kinds: nil, typed nil *Statement / *Group, Null(), empty statement, Add(), List(), Union(), Tag(nil), Tag(map{}), delimiter-less Custom / CustomFunc groups (multi-line or not) made only of nulls, nests of those); the same Go slice handed to two constructs in a row x Empty() at one real position; (b) null policy applied to every list construct and the File body of real programs (corpus third / all files); non-trivial = >= 1 injected null in a list with >= 1 real item; distinct by case")
 	r.Assume("null-like items are only inserted as items of list constructs, never into a statement's call chain (Case(x).Null().Block() legitimately stops being a case block) and never beside a Dict in Values (documented precondition)")
 
 	ckL := hx.Check[listCase]{Name: "synthetic_list", Fn: checkList}
@@ -263,6 +333,20 @@ func TestC13(t *testing.T) {
 		}
 		if c.Mask != 0 && c.Arity-popcount(c.Mask) > 0 {
 			r.NonTrivial(fmt.Sprintf("%+v", c))
+		}
+		return c
+	})
+
+	ckS := hx.Check[sliceCase]{Name: "shared_slice", Fn: checkSlice}
+	hx.Rapid(r, t, ckS, r.N(1500, 15000), func(rt *rapid.T) sliceCase {
+		c := sliceCase{First: rapid.SampledFrom(fns).Draw(rt, "first"), Second: rapid.SampledFrom(fns).Draw(rt, "second"), Arity: rapid.IntRange(1, 9).Draw(rt, "arity")}
+		c.Mask = rapid.Uint32().Draw(rt, "mask") & (1<<uint(c.Arity) - 1)
+		for i := rapid.IntRange(1, 4).Draw(rt, "nkinds"); i > 0; i-- {
+			c.Kinds = append(c.Kinds, rapid.IntRange(0, len(mutate.NullKinds)-1).Draw(rt, "kind"))
+		}
+		if c.Mask != 0 {
+			r.NonTrivial(fmt.Sprintf("%+v", c))
+			r.Class("shared_slice_with_nulls")
 		}
 		return c
 	})
